@@ -379,8 +379,13 @@ fn find_free_symbols_in_proc<'a>(
     env: &mut HashSet<&'a Cell>,
     free: &mut HashSet<&'a Cell>,
 ) -> Result<(), Error> {
-    if car.is_quote() || car.is_quasiquote() {
+    if car.is_quote() {
         return Ok(());
+    }
+
+    // Only the unquoted expressions of a quasiquote template refer to variables
+    if car.is_quasiquote() {
+        return find_free_symbols_in_quasiquote(cdr, 0, env, free);
     }
 
     if car.is_symbol() && !car.is_primitive_symbol() && !env.contains(car) {
@@ -446,6 +451,55 @@ fn find_free_symbols_in_proc<'a>(
     }
 
     Ok(())
+}
+
+/// Find Free Symbols In Quasiquote
+///
+/// Recurse a quasiquote template, collecting the free symbols of every
+/// expression that is unquoted at nesting level 0.
+fn find_free_symbols_in_quasiquote<'a>(
+    template: &'a Cell,
+    depth: usize,
+    env: &mut HashSet<&'a Cell>,
+    free: &mut HashSet<&'a Cell>,
+) -> Result<(), Error> {
+    match template {
+        Cell::Vector(vector) => {
+            for it in vector {
+                find_free_symbols_in_quasiquote(it, depth, env, free)?;
+            }
+            Ok(())
+        }
+        Cell::Pair(car, _) => {
+            let mut depth = depth;
+            if car.is_unquote() {
+                if depth == 0 {
+                    let mut rest = template.cdr().unwrap();
+                    while rest.is_pair() {
+                        find_free_symbols(rest.car().unwrap(), env, free)?;
+                        rest = rest.cdr().unwrap();
+                    }
+                    return Ok(());
+                }
+                depth -= 1;
+            } else if car.is_quasiquote() {
+                depth += 1;
+            }
+            let mut rest = template;
+            let mut first = true;
+            while rest.is_pair() {
+                // (a . ,b) reads as (a unquote b): an unquote form in tail position
+                if !first && rest.car().unwrap().is_unquote() {
+                    break;
+                }
+                find_free_symbols_in_quasiquote(rest.car().unwrap(), depth, env, free)?;
+                rest = rest.cdr().unwrap();
+                first = false;
+            }
+            find_free_symbols_in_quasiquote(rest, depth, env, free)
+        }
+        _ => Ok(()),
+    }
 }
 
 /// Interally defined symbols
